@@ -701,7 +701,9 @@ def hybrj(f, x0, jac, tol=None, verbose=False, maxiter=200, var_bounds=None):
             x = __x
             F1 = F0
             F0 = __f
-            success = D.ar_numpy.linalg.norm(F0) < tol or dxn <= xtol
+            # A small step alone does not certify a solution (it also occurs when the iteration stagnates),
+            # the residual has to be at the level of the tolerance as well
+            success = D.ar_numpy.linalg.norm(F0) < tol or (dxn <= xtol and D.ar_numpy.linalg.norm(F0) <= xtol)
         if no_progress:
             J0 = fun_jac(x)
         else:
@@ -712,7 +714,9 @@ def hybrj(f, x0, jac, tol=None, verbose=False, maxiter=200, var_bounds=None):
             trust_region = D.ar_numpy.maximum(trust_region, 3 *  D.ar_numpy.linalg.norm(dx_gn))
         elif D.ar_numpy.max(gain) < 0.25:
             trust_region = trust_region * 0.5
-            success = success or trust_region <= xtol
+            if trust_region <= xtol and not success:
+                # The trust region has collapsed without reaching a solution: report failure
+                break
         if success:
             if verbose:
                 Fn0 = D.ar_numpy.linalg.norm(F0)
@@ -816,6 +820,8 @@ def nonlinear_roots(f, x0, jac=None, tol=None, verbose=False, maxiter=200, use_s
         x = D.ar_numpy.reshape(res.x, (xdim, 1))
         F = D.ar_numpy.reshape(res.fun, fshape)
         success = res.success or ("no futher improvement" in res.message and D.ar_numpy.linalg.norm(res.fun) <= D.tol_epsilon(x0.dtype))
+        # MINPACK stops on the size of the step, only a residual at the level of the tolerance certifies a solution
+        success = success and D.ar_numpy.linalg.norm(res.fun) <= tol * (xdim + D.ar_numpy.linalg.norm(res.x))
         if success:
             x = D.ar_numpy.reshape(x, xshape)
             if var_bounds is not None:
